@@ -80,6 +80,7 @@ struct Opts {
 	size_t out_hint = 0;        // expected output size (initial buffer capacity)
 	size_t small_call_budget = 20000; // after this many calls the tail pieces become "everything" (keeps 1-byte schedules affordable on MiB inputs)
 	size_t idle_limit = 3;      // consecutive no-progress calls with everything offered (threaded coders with a timeout: raise)
+	size_t extra_calls = 0;     // added to the call bound: threaded coders with a timeout return LZMA_OK without progress every few ms while workers are busy (wall clock, not a property of the coder)
 	bool input_beyond_declared_size = false; // MicroLZMA decoder: it never reads past the comp_size it was told, so unread input + free output + LZMA_BUF_ERROR is legitimate there
 	// called after every lzma_code(); return false to stop the loop
 	bool (*hook)(lzma_stream *, lzma_ret, void *) = nullptr; void *hook_arg = nullptr;
@@ -155,7 +156,7 @@ static inline Result run(lzma_stream *strm, const uint8_t *in, size_t n, const S
 		// bounded number of calls: every call either moves a byte, or is one of
 		// the schedule's idle pieces, or is the single idle call before BUF_ERROR.
 		if (got == 0 && (size_t)(strm->total_in - tin0) == consumed && everything) ++idle_everything; else if (everything) idle_everything = 0;
-		if (idle_everything > o.idle_limit || r.calls > bound_base + 2 * (n + produced) + 16) { r.call_bound = true; r.ret = ret; break; }
+		if (idle_everything > o.idle_limit || r.calls > bound_base + 2 * (n + produced) + 16 + o.extra_calls) { r.call_bound = true; r.ret = ret; break; }
 	}
 	r.total_in = strm->total_in - tin0; r.total_out = strm->total_out - tout0;
 	r.out.assign(obuf, obuf + produced); free(obuf);
